@@ -362,6 +362,36 @@ appendCheck:
 			}
 		}
 		res.Check(okSize, "O5.2", "Append: size grows by one per stored element", fnPos(c.Prog, f), "ok", "an element is stored without counting it")
+		// and the converse: a slot becomes live (size++) only after it was written - also for the holes that
+		// keep proxy ids contiguous: a reserved but unwritten slot still holds whatever a discarded entry left there
+		isSizeInc := func(x ssa.Instruction) bool {
+			st, ok := x.(*ssa.Store)
+			if !ok {
+				return false
+			}
+			fa, ok := st.Addr.(*ssa.FieldAddr)
+			if !ok || flow.FieldName(fa.X.Type(), fa.Field) != "size" {
+				return false
+			}
+			bo, ok := st.Val.(*ssa.BinOp)
+			return ok && bo.Op == token.ADD
+		}
+		unwritten := ""
+		nInc := 0
+		if r := flow.FindPath(flow.Point{Block: f.Blocks[0]}, isSizeInc, isElemStore, nil); r.Found {
+			unwritten = instrPos(c.Prog, r.End)
+		}
+		for _, b := range f.Blocks {
+			for _, ins := range b.Instrs {
+				if isSizeInc(ins) {
+					nInc++
+					if r := flow.FindPath(flow.After(ins), isSizeInc, isElemStore, nil); r.Found {
+						unwritten = instrPos(c.Prog, r.End)
+					}
+				}
+			}
+		}
+		res.Check(unwritten == "" && nInc >= 1, "O5.2", "Append: a slot is written before it becomes live", fnPos(c.Prog, f), fmt.Sprintf("%d size increments, each preceded by a store into the slot", nInc), "size is advanced at "+unwritten+" without a store into the new slot: the slot keeps the entry a previous Discard left there, and AggregateUpTo reports that stale (shard, task) again")
 	}
 
 	// ---- O5.3 Discard
